@@ -22,7 +22,7 @@ META = {
         "data flipped in every cycle but the last when refocusing, final data values",
     ],
     "floors": {
-        "quick": {"circuits_simulated": 3000, "records_compared": 3000, "detector_checks": 3000, "with_ancilla_state": 250, "from_connectivity": 250,
+        "quick": {"many_cycle_inputs": 1, "circuits_simulated": 3000, "records_compared": 3000, "detector_checks": 3000, "with_ancilla_state": 250, "from_connectivity": 250,
                   "cycles_ge_4": 300, "refocus_off": 200, "distance_1_inputs": 40, "multi_round_experiments": 40},
         "thorough": {"circuits_simulated": 20000, "records_compared": 20000, "with_ancilla_state": 3000, "from_connectivity": 3000},
     },
@@ -38,6 +38,12 @@ def gen_input(rng: random.Random) -> Dict[str, Any]:
     inp = libgen.gen_repcode_input(rng, max_distance=5, max_cycles=8, constructors=("full",), min_distance=1)
     if inp["distance"] == 5 and rng.random() < 0.5:
         inp["cycles"] = rng.randint(0, 4)
+    if inp["distance"] in (2, 3) and rng.random() < 0.012:
+        # many cycles: the flattened circuit is several hundred relation levels deep (seeded change C09-r12: the graph walk's safety bound
+        # lowered to 500 levels silently drops the rounds behind it)
+        inp["cycles"] = rng.randint(28, 33)
+        inp["many_cycles"] = True
+        return inp
     if inp["distance"] <= 3 and rng.random() < 0.12:
         inp["multi_round_rounds"] = rng.sample(range(0, 6), rng.randint(1, 3))
         inp["ancilla_state"] = None
@@ -112,6 +118,8 @@ def check_input(inp: Dict[str, Any], acc: Acc):
         acc.count("refocus_off")
     acc.hist("distance", inp["distance"])
     acc.hist("cycles", inp["cycles"])
+    if inp.get("many_cycles"):
+        acc.count("many_cycle_inputs")
     acc.hist("description", inp["description"])
     forms = {}
     built = libgen.construct(inp)
